@@ -298,6 +298,14 @@ def run(ctx):
     # ---- (I) ---------------------------------------------------------------------------------------
     imports = ['Model.Layout', 'Model.FlowGraph', 'Model.Memo']
     pre = fd.graph_prelude()
+    bad_wf = fd.run_sharded(ctx, imports, pre, 'check_wf', hist_terms)
+    cov['graphs_outside_wf_hypothesis'] = len(bad_wf)
+    for i in bad_wf[:3]:
+        fn, text, order = hist_meta[i]
+        ctx.violation('hypothesis graph_wfb of theorem C04_memo_transparent is false on the graph supp built for %s: the '
+                      'theorem does not cover it' % os.path.basename(fn),
+                      {'kind': 'wf', 'theorem': 'C04_memo_transparent (graph_wfb)', 'file': fn if text is None else None,
+                       'source': text}, found_input=False)
     bad_h = fd.run_sharded(ctx, imports, pre, 'check_history true', hist_terms)
     ctx.log('memo histories done in Coq')
     bad_p = fd.run_sharded(ctx, imports, pre, 'check_pure true', pure_terms)
